@@ -56,6 +56,17 @@ def _numbagg_wrapper(
             if np.issubdtype(array.dtype, from_):
                 array = array.astype(to_, copy=False)
 
+    # numbagg accumulates in the dtype of its input; widen narrow integers first so that
+    # sums and products do not wrap at the width of the input.
+    if (
+        func in ("nansum", "nanprod", "nansum_of_squares")
+        and dtype is not None
+        and array.dtype.kind in "iu"
+        and np.dtype(dtype).kind in "iuf"
+        and np.dtype(dtype).itemsize > array.dtype.itemsize
+    ):
+        array = array.astype(dtype)
+
     func_ = getattr(numbagg.grouped, f"group_{func}")
 
     result = func_(
